@@ -102,7 +102,10 @@ def direct_oracle(inp, obs):
             cid_path = w.write_cid(spec)
             data_path = w.write_data("data.csv", V.encode(spec, table))
             argv = ([] if limit is None else ["--until", str(limit)]) + [cid_path, data_path]
-            code = CLI.run_main(argv)
+            code, looked_up = CLI.run_main_recording(argv)
+            env_msg = CLI.environment_dependence(argv, code, looked_up)
+            if env_msg:
+                return env_msg
             # the command line validates with Reader.validate_rows (no islice): compare with the row API in raise mode
             api = V.run_reader(V.build_cid(spec), spec, V.encode(spec, table), "raise", limit)
             want = 0 if api["raised"] is None else 1
